@@ -150,10 +150,23 @@ pub fn load_value(doc: &Value, name: &str) -> Result<Loaded, String> {
     // ---- public input -------------------------------------------------------------------
     let dynamic_params: Option<DynamicParams> = match pi.get("dynamic_params") {
         None | Some(Value::Null) => None,
-        Some(v) => Some(
-            serde_json::from_value::<DynamicParams>(v.clone())
-                .map_err(|e| format!("dynamic_params: {e}"))?,
-        ),
+        Some(v) => {
+            // The file names parameters with a double underscore between component and member
+            // ("add_mod__a0_suboffset"); the verifier's struct uses single underscores. Map by
+            // NAME (never by position), so that field order cannot matter.
+            let obj = v.as_object().ok_or("dynamic_params is not an object")?;
+            let mut renamed = serde_json::Map::new();
+            for (k, x) in obj {
+                let name = k.replace("__", "_");
+                if renamed.insert(name.clone(), x.clone()).is_some() {
+                    return err(format!("dynamic_params: two keys map to {name}"));
+                }
+            }
+            Some(
+                serde_json::from_value::<DynamicParams>(Value::Object(renamed))
+                    .map_err(|e| format!("dynamic_params: {e}"))?,
+            )
+        }
     };
     let n_steps = u64_of(pi.get("n_steps").ok_or("no n_steps")?, "n_steps")?;
     let log_n_steps = log2_exact(n_steps, "n_steps")?;
@@ -387,6 +400,12 @@ pub fn load_value(doc: &Value, name: &str) -> Result<Loaded, String> {
                 leaves[table].push(raw32(c)? * rinv);
             } else if pv.rest.starts_with("For node ") {
                 auth_nodes[table].push(parse_number_after(pv.rest, "For node ").ok_or("bad node")?);
+                auths[table].push(raw32(c)?);
+            } else if pv.rest.starts_with("To complete packages, element #") {
+                // single-column tables: the unhashed bottom-layer sibling travels as raw data
+                let e = parse_number_after(pv.rest, "element #").ok_or("bad element")?;
+                let height = if table < 3 { log_eval } else { 0 };
+                auth_nodes[table].push((1u64 << height.min(62)) + e);
                 auths[table].push(raw32(c)?);
             } else {
                 return err(format!("unknown decommitment message: {}", pv.rest));
